@@ -634,6 +634,7 @@ TRANSPARENT = re.compile(
     r"|core::iter::traits::collect::IntoIterator::into_iter|<.* as core::iter::traits::collect::IntoIterator>::into_iter"
     r"|core::slice::<impl \[T\]>::(iter|len|first|last|get|to_vec|iter_mut)|alloc::vec::Vec::<T>::(len|iter|first|last|get|as_slice)"
     r"|alloc::vec::Vec::<T, A>::(len|as_slice|first|last)"
+    r"|core::sync::atomic::Atomic\w*::<\w+>::load|core::sync::atomic::Atomic\w*::load"
     r"|core::ops::range::RangeInclusive::<Idx>::(start|end|new)|core::ops::range::Range::<Idx>::(start|end)"
     r"|(std::collections|alloc::collections|hashbrown)::.*::(len|iter|get|first|last|keys|values|first_key_value|last_key_value|entry|or_insert|or_insert_with|or_default|get_mut|and_modify)"
     r")$")
